@@ -15,7 +15,7 @@ EXTENDS Integers, Sequences, FiniteSets, TLC, Json
 CONSTANTS ArgVals,        \* the argument pool (encoded as above)
           Families        \* which method families to enumerate
 
-UNDEF == 9001  NAN == 9002  PINF == 9003  NINF == 9004
+UNDEF == 9001  NAN == 9002  PINF == 9003  NINF == 9004  NZERO == 9005      \* NZERO (-0) only occurs in the Math family
 ENAN == -1000  EUNDEF == -1001
 INF == 100000              \* larger than every length in the model
 
@@ -189,6 +189,37 @@ StrSplit(s, q, args) ==
                 ELSE IF s = <<>> THEN <<<<>>>> ELSE SplitFrom(s, q, 0, 0)
   IN IF lim = 0 THEN VStrs(<<>>) ELSE VStrs(SubSeq(pieces, 1, Min(lim, Len(pieces))))
 
+\* ---------------------------------------------------------------- Math on integers, halves and the special values
+\* numbers are [k |-> "nan"] | [k |-> "inf", s |-> 1 / -1] | [k |-> "fin", h |-> 2 * value, neg0 |-> BOOLEAN]
+MNaN == [k |-> "nan"]
+MInf(sg) == [k |-> "inf", s |-> sg]
+MFin(h) == [k |-> "fin", h |-> h, neg0 |-> FALSE]
+MNegZero == [k |-> "fin", h |-> 0, neg0 |-> TRUE]
+MOf(a) == CASE a \in {UNDEF, NAN} -> MNaN [] a = PINF -> MInf(1) [] a = NINF -> MInf(-1) [] a = NZERO -> MNegZero [] OTHER -> MFin(a)
+VM(x) == CASE x.k = "nan" -> VNaN [] x.k = "inf" -> [t |-> "inf", s |-> x.s] [] x.neg0 -> [t |-> "nzero"] [] OTHER -> [t |-> "half", h |-> x.h]
+MIsNeg(x) == (x.k = "inf" /\ x.s = -1) \/ (x.k = "fin" /\ (x.h < 0 \/ x.neg0))
+\* total order used by max/min: -Infinity < negative < -0 < +0 < positive < +Infinity
+MKey(x) == CASE x.k = "inf" -> x.s * 100000 [] x.neg0 -> -1 [] OTHER -> 4 * x.h + (IF x.h >= 0 THEN 1 ELSE 0)
+MLess(x, y) == (IF x.k = "fin" /\ x.h = 0 THEN (IF x.neg0 THEN -1 ELSE 0) ELSE MKey(x)) < (IF y.k = "fin" /\ y.h = 0 THEN (IF y.neg0 THEN -1 ELSE 0) ELSE MKey(y))
+RECURSIVE MFold(_, _, _)
+MFold(xs, acc, wantMax) == IF xs = <<>> THEN acc
+   ELSE LET x == MOf(xs[1]) IN
+        IF x.k = "nan" \/ acc.k = "nan" THEN MFold(Tail(xs), MNaN, wantMax)       \* every argument is still converted, NaN wins
+        ELSE MFold(Tail(xs), IF (wantMax /\ MLess(acc, x)) \/ (~wantMax /\ MLess(x, acc)) THEN x ELSE acc, wantMax)
+MathMax(args) == VM(MFold(args, MInf(-1), TRUE))
+MathMin(args) == VM(MFold(args, MInf(1), FALSE))
+FloorH(h) == IF h % 2 = 0 THEN h ELSE h - 1                 \* floor of h/2, times 2 (h odd: x.5 -> x)
+MathFloor(a) == LET x == MOf(a) IN IF x.k # "fin" \/ x.neg0 THEN VM(x) ELSE VM(MFin(FloorH(x.h)))
+MathCeil(a) == LET x == MOf(a) IN IF x.k # "fin" \/ x.neg0 THEN VM(x)
+               ELSE LET c == IF x.h % 2 = 0 THEN x.h ELSE x.h + 1 IN IF c = 0 /\ x.h < 0 THEN VM(MNegZero) ELSE VM(MFin(c))
+MathTrunc(a) == LET x == MOf(a) IN IF x.k # "fin" \/ x.neg0 THEN VM(x)
+                ELSE LET t == IF x.h >= 0 THEN FloorH(x.h) ELSE -FloorH(-x.h) IN IF t = 0 /\ x.h < 0 THEN VM(MNegZero) ELSE VM(MFin(t))
+\* Math.round: floor(x + 0.5), but -0 for -0.5 <= x < 0 (and for -0)
+MathRound(a) == LET x == MOf(a) IN IF x.k # "fin" \/ x.neg0 THEN VM(x)
+                ELSE LET r == FloorH(x.h + 1) IN IF r = 0 /\ x.h < 0 THEN VM(MNegZero) ELSE VM(MFin(r))
+MathSign(a) == LET x == MOf(a) IN IF x.k = "nan" THEN VNaN ELSE IF x.k = "fin" /\ x.h = 0 THEN VM(x) ELSE VM(MFin(IF MIsNeg(x) THEN -2 ELSE 2))
+MathAbs(a) == LET x == MOf(a) IN IF x.k = "nan" THEN VNaN ELSE IF x.k = "inf" THEN VM(MInf(1)) ELSE VM(MFin(IF x.h < 0 THEN -x.h ELSE x.h))
+
 \* ---------------------------------------------------------------- the case space
 Arrays == {<<>>, <<10>>, <<10, 20, 30>>, <<10, 20, 10, ENAN, EUNDEF>>}
 SearchElems == {10, 20, 99, ENAN, EUNDEF}
@@ -217,7 +248,11 @@ StringCases ==
   \cup [m : {"s.repeat"}, recv : Strings, q : {<<>>}, args : {<<a>> : a \in FiniteArgs} \cup {<<PINF>>}]
   \cup [m : {"s.padStart", "s.padEnd"}, recv : Strings, q : Needles, args : {<<a>> : a \in FiniteArgs}]
   \cup [m : {"s.split"}, recv : Strings, q : Needles, args : Tup0 \cup Tup1]
-Cases == (IF "array" \in Families THEN ArrayCases ELSE {}) \cup (IF "string" \in Families THEN StringCases ELSE {})
+MathArgs == ArgVals \cup {NZERO}
+MathCases ==
+       [m : {"M.max", "M.min"}, recv : {<<>>}, q : {<<>>}, args : {<<>>} \cup {<<a>> : a \in MathArgs} \cup {<<a, b>> : a \in MathArgs, b \in MathArgs} \cup {<<a, 2, b>> : a \in MathArgs, b \in MathArgs}]
+  \cup [m : {"M.floor", "M.ceil", "M.trunc", "M.round", "M.sign", "M.abs"}, recv : {<<>>}, q : {<<>>}, args : {<<a>> : a \in MathArgs}]
+Cases == (IF "array" \in Families THEN ArrayCases ELSE {}) \cup (IF "string" \in Families THEN StringCases ELSE {}) \cup (IF "math" \in Families THEN MathCases ELSE {})
 
 Result(c) ==
   CASE c.m = "slice" -> ArrSlice(c.recv, c.args)
@@ -247,6 +282,14 @@ Result(c) ==
     [] c.m = "s.padStart" -> Pad(c.recv, c.q, c.args, TRUE)
     [] c.m = "s.padEnd" -> Pad(c.recv, c.q, c.args, FALSE)
     [] c.m = "s.split" -> StrSplit(c.recv, c.q, c.args)
+    [] c.m = "M.max" -> MathMax(c.args)
+    [] c.m = "M.min" -> MathMin(c.args)
+    [] c.m = "M.floor" -> MathFloor(c.args[1])
+    [] c.m = "M.ceil" -> MathCeil(c.args[1])
+    [] c.m = "M.trunc" -> MathTrunc(c.args[1])
+    [] c.m = "M.round" -> MathRound(c.args[1])
+    [] c.m = "M.sign" -> MathSign(c.args[1])
+    [] c.m = "M.abs" -> MathAbs(c.args[1])
 
 \* ---------------------------------------------------------------- properties of the specification itself
 \* slice never invents elements and agrees with the at() of every position it keeps
